@@ -401,6 +401,26 @@ def run(ctx):
                 r.bad("same_fs|root-device", "%s can hand out a root under same_file_system without looking up that root's "
                       "own device: its subtree is pinned to the device of another root (the serial walker pins each root to its own)"
                       % vis.path.split("::")[-1], fn=vis, loc=dn[0].loc, construct="root_device")
+        # ... and the serial walker asks walkdir to skip a filtered directory only where walkdir has entered it: walkdir
+        # does not enter a directory on another device, and skip_current_dir() then drops the rest of the *parent*
+        wn = facts.fn("<%s::Walk as core::iter::traits::iterator::Iterator>::next" % W)
+        wnc = facts.with_closures("<%s::Walk as core::iter::traits::iterator::Iterator>::next" % W)
+        ebn = ExprBuilder(wn)
+        scd = [c for c in wn.calls() if c.path.endswith("::skip_current_dir")]
+        if not scd:
+            r.ok("same_fs|serial-skip", "Walk::next never asks walkdir to skip", fn=wn, nontrivial=False)
+        else:
+            dev_sw = cond_switches(wn, lambda e: any(is_field(x, W + "::Walk", "root_device") or is_call(x, W + "::is_same_file_system")
+                                                     for x in walk(e)), ebn)
+            asks = any(c.path in (W + "::is_same_file_system", W + "::device_num") for g_ in wnc for c in g_.calls())
+            unguarded = guarded(wn, [c.bb for c in scd], dev_sw, True) if dev_sw else [c.bb for c in scd]
+            if asks and not unguarded:
+                r.ok("same_fs|serial-skip", "skip_current_dir() only behind the test that the directory is on the root's device", fn=wn)
+            else:
+                r.bad("same_fs|serial-skip", "Walk::next calls walkdir's skip_current_dir() for every filtered directory; under "
+                      "same_file_system walkdir has not entered a directory on another device, so the call drops the rest of the "
+                      "parent directory: the serial walker loses the later siblings that the parallel walker reports",
+                      fn=wn, loc=scd[0].loc, construct="skip_current_dir")
         ih = facts.fn("ignore::pathutil::is_hidden")
         ebi = ExprBuilder(ih)
         e_ = ebi.local(0)
